@@ -172,6 +172,57 @@ func parserInputs(o *propOpts, each func(e *entry, s string, origin string)) {
 			}
 		}
 	}
+	// systematic PSEUDO-KEYWORD substitutions (round 3, seed C02h): a word the parser compares identifiers with (TABLE, VIEW, ROLE,
+	// STREAM, INTERLEAVE, …; not reserved) replaced, where the golden inputs use it in keyword position, by every OTHER such word, at
+	// one position of every distinct (previous token, word, next token kind) context — "the sibling clause spelled with the wrong
+	// pseudo keyword": whatever a merged or generalised dispatch now accepts is checked like any other accepted input
+	{
+		pkCtx := map[string]bool{}
+		words := parserWords()
+		isWord := map[string]bool{}
+		for _, w := range words {
+			isWord[strings.ToUpper(w)] = true
+		}
+		for _, cf := range files {
+			if cf.Bad {
+				continue
+			}
+			toks, ok := tokenSpans(cf.Text)
+			if !ok {
+				continue
+			}
+			e := entryByName(entryForDir(cf.Dir))
+			for i := 0; i+1 < len(toks); i++ {
+				t := toks[i]
+				up := strings.ToUpper(t.Raw)
+				if t.Kind != token.TokenIdent || !isWord[up] {
+					continue
+				}
+				prev := "^"
+				if i > 0 {
+					prev = strings.ToUpper(toks[i-1].Raw)
+					if toks[i-1].Kind == token.TokenIdent && !isWord[prev] {
+						prev = "<ident>"
+					}
+				}
+				key := prev + "\x00" + up + "\x00" + string(toks[i+1].Kind)
+				if pkCtx[key] {
+					continue
+				}
+				pkCtx[key] = true
+				for _, w := range words {
+					if strings.ToUpper(w) == up {
+						continue
+					}
+					edits++
+					if o.tier != "thorough" && edits%4 != int(o.seed%4) {
+						continue
+					}
+					each(e, cf.Text[:t.Pos]+strings.ToUpper(w)+cf.Text[t.End:], "edit-pseudokw")
+				}
+			}
+		}
+	}
 	// systematic QUOTED-word substitutions (the round-trip and losslessness predicates only: they are about what SQL() prints): an
 	// identifier replaced by a back-quoted word that parser.go compares identifiers with (INSERT, OPTIONS, INTERLEAVE, VALUE, type
 	// names, ...) at one position of every distinct (statement head, previous token, next token kind) context of the golden inputs and of a
